@@ -266,6 +266,7 @@ def run_scn(rep, scn, variant, table, geoms, dist):
     # ops whose new name matches an existing entry do not create anything: the model must not be asked to add them
     # (decided with the direct folding rule while replaying the implementation's results)
     skip = set()
+    respell = {}
     sim_live = {}
     mo = None
     # first pass: decide which creates hit an existing entry, using only names (aliases come from the implementation)
@@ -281,6 +282,22 @@ def run_scn(rep, scn, variant, table, geoms, dist):
                 skip.add(k); continue
             hit = exists(name)
             ns = new_slots(o, g)
+            if hit and op[0] == "mv" and ns:
+                # the name may be another spelling of the renamed entry's own long name or alias: the entry is then
+                # rewritten under the new spelling and keeps its alias (nothing else may be written)
+                kk = fkey(name); src_raw = live[op[1]]
+                own = (1 if fkey(op[1]) == kk else 0)
+                own_alias = (1 if fkey(short_string(src_raw).decode("latin-1")) == kk else 0)
+                sf = [s for s in ns if (s[11] & 0x0F) != 0x0F]
+                lf = [s for s in ns if (s[11] & 0x0F) == 0x0F]
+                if own + own_alias > 0 and o.kind == "ok" and len(sf) == 1 and ns[-1] is sf[0] and sf[0][:11] == src_raw \
+                        and flong.get(kk, 0) - own == 0 and falias.get(kk, 0) - own_alias == 0 \
+                        and all(s[13] == lfn_checksum(src_raw) for s in lf):
+                    skip.add(k)
+                    rem(op[1]); add(name, src_raw)
+                    respell[k] = (op[1], name)
+                    dist["respell"] = dist.get("respell", 0) + 1
+                    continue
             if hit:
                 # an entry with that name or alias exists: create opens it, rename fails (or is a no-op on itself)
                 skip.add(k)
@@ -337,6 +354,8 @@ def run_scn(rep, scn, variant, table, geoms, dist):
     # ---- the model on the same history (creates that opened an existing entry are not part of it)
     lines = list(ml); pos = {}
     for k, op in enumerate(scn.ops):
+        if k in respell:
+            lines.append("drespell %s %s" % (hexs(respell[k][0]), hexs(respell[k][1])))
         if k in skip or op[0] == "chk":
             continue
         if op[0] == "c":
